@@ -168,6 +168,7 @@ OccsOf(prog, scope, file, files, tab, md) ==
                     {OccC(s.oid, IF k = "" THEN -1 ELSE md[k].oid, FALSE, file, scope, s.name, <<s.name>>, 1, TRUE)}
                     \cup (IF k = "" THEN {} ELSE OccsOf(md[k].body, CallScope(scope, s), file, files, tab, md))
                [] s.k = "use" -> UseOccs(tab, scope, file, s.path, s.oids)
+               [] s.k = "blk" -> {Occ(s.oid, NoNode, FALSE, file, scope, "-", <<"-">>, 1)}     \* `bne -': the automatic block-start symbol, it has no name in the source
                [] s.k = "fuse" -> UseOccs(tab, scope, file, s.path, s.oids)                 \* `.file "{path}.bin"'
                [] s.k = "expr" -> UNION {UseOccs(tab, scope, file, s.paths[j], s.oidss[j]) : j \in 1..Len(s.paths)}
                [] s.k = "ifdef" -> UseOccs(tab, scope, file, s.path, s.oids) \cup OccsOf(s.body, scope, file, files, tab, md)
